@@ -19,12 +19,17 @@ from harness.common import zlit, listlit
 T0 = datetime.datetime(2021, 1, 1, tzinfo=datetime.timezone.utc)
 
 
+# one scenario time unit is a quarter of a second: several distinct instants fall inside one wall-clock second
+UNIT_US = 250000
+
+
 def T(s):
-    return T0 + datetime.timedelta(seconds=s)
+    return T0 + datetime.timedelta(microseconds=UNIT_US * s)
 
 
 def S(dt):
-    return int((dt - T0).total_seconds())
+    us = (dt - T0) // datetime.timedelta(microseconds=1)
+    return us // UNIT_US if us % UNIT_US == 0 else us / UNIT_US
 
 
 async def _run(sc):
@@ -61,6 +66,9 @@ async def _run(sc):
                 log.append(("eff", "sched", f[1], f[2], now()))
 
     def make_job(jid, when):
+        return flavoured(make_plain_job(jid, when), sc.get("job_flavour", {}).get(str(jid), "function"))
+
+    def make_plain_job(jid, when):
         async def job():
             log.append(("job", "start", jid, when, now()))
             apply_effects(sc["bjob"].get(str(jid), []))
@@ -94,14 +102,38 @@ async def _run(sc):
         async def handle(self, event):
             await self.fn(event)
 
+    class CallableObject:
+        """a handler / job that is an instance with an async __call__ (no __name__ / __qualname__)"""
+        def __init__(self, fn):
+            self.fn = fn
+
+        async def __call__(self, *args):
+            await self.fn(*args)
+
+    def flavoured(fn, flavour):
+        """the same behaviour as a plain function, a functools.partial or a callable object"""
+        if flavour == "partial":
+            import functools
+            return functools.partial(fn)
+        if flavour == "object":
+            return CallableObject(fn)
+        return fn
+
     for i, src in enumerate(srcs):
         hc = sc["handlers"][i]
-        hs = [Bound(make_handler("src", k, i, hc["susp"][k], hc["raise"][k], k == 0)) for k in range(hc["n"])]
+        fl = hc.get("flavour", ["method"] * hc["n"])
+        hs = []
+        for k in range(hc["n"]):
+            fn = make_handler("src", k, i, hc["susp"][k], hc["raise"][k], k == 0)
+            hs.append(Bound(fn) if fl[k] == "method" else flavoured(fn, fl[k]))
+
+        def sub(h):
+            return h.handle if isinstance(h, Bound) else h
         for h in hs:
-            d.subscribe(src, h.handle)
+            d.subscribe(src, sub(h))
         if hc.get("dup") and hs:
-            d.subscribe(src, hs[-1].handle)          # duplicate subscription must be ignored
-            d.subscribe(src, hs[0].handle)
+            d.subscribe(src, sub(hs[-1]))          # duplicate subscription must be ignored
+            d.subscribe(src, sub(hs[0]))
     # catch-all handlers do not know the source index: resolve through the event id table
     eid_src = {}
     for i, evs in enumerate(sc["sources"]):
@@ -130,8 +162,26 @@ async def _run(sc):
             d.subscribe_all(sn.handle, front_run=True)
     for k, p in enumerate(sc["post"]):
         d.subscribe_all(make_sniffer("post", k, p["susp"], p["raise"]), front_run=False)
+    class TwinJob:
+        """one callable scheduled several times for the same instant (equal bound methods): each run takes the next id"""
+        def __init__(self, jids, when):
+            self.jids, self.when = list(jids), when
+
+        async def run(self):
+            jid = self.jids.pop(0)
+            log.append(("job", "start", jid, self.when, now()))
+            log.append(("job", "end", jid, self.when, now()))
+    twins = sc.get("twins", {})            # job id -> id of the job whose callable it shares
+    twin_objs = {}
     for w, j in sc["jobs"]:
-        d.schedule(T(w), make_job(j, w))
+        lead = twins.get(str(j))
+        if lead is not None or str(j) in twins.values() or j in [int(v) for v in twins.values()]:
+            key = int(lead) if lead is not None else j
+            if key not in twin_objs:
+                twin_objs[key] = TwinJob([key] + [int(k) for k, v in twins.items() if int(v) == key], w)
+            d.schedule(T(w), twin_objs[key].run)
+        else:
+            d.schedule(T(w), make_job(j, w))
     lg = logging.getLogger("basana")
     old = lg.level
     lg.setLevel(logging.CRITICAL + 1)
